@@ -125,6 +125,38 @@ def clauses(case, d, prev=None):
     return sorted(set(bad))
 
 
+_ULP = []
+
+
+def ulp_triples():
+    """(start, tock, limit) where `tyme >= start + limit` and the algebraically equal `tyme - start >= (start + limit) - start`
+    decide differently for some cycle end tyme in float arithmetic: start + limit lands within an ulp or two of a tick.
+    Found by enumeration here (not hard coded): the stop cycle of a limited run depends on which formula the Tymer uses."""
+    if _ULP:
+        return _ULP
+    starts = [round(0.1 * i, 1) for i in range(1, 41)] + [10.1, 33.3]
+    tocks = [0.1, 0.2, 0.3, 0.7, 0.05, 0.15, 0.6, 1.1]
+    for st in starts:
+        for tk in tocks:
+            lims = set()
+            for k in range(1, 16):
+                lims.add(k * tk)
+                lims.add(round(k * tk, 10))
+            for lm in sorted(lims):
+                stop = st + lm
+                dur = stop - st
+                t = st
+                for n in range(1, 40):
+                    t += tk
+                    a, b = t >= stop, (t - st) >= dur
+                    if a != b:
+                        _ULP.append((st, tk, lm))
+                        break
+                    if a:
+                        break
+    return _ULP
+
+
 class C05(S.SchedCheck):
     pid = "C05"
     props_mod = "HioModel.Props.C05"
@@ -158,6 +190,14 @@ class C05(S.SchedCheck):
         yield from super().generate(rng, n - k, tier)
         for _ in range(k):
             yield S.gen_runs(rng)
+        # limits that land within an ulp of a cycle end tyme (non-dyadic start / tock / limit), on long-lived programs
+        tri = ulp_triples()
+        y = ([], ("yield", 0.0))
+        for st, tk, lm in rng.sample(tri, min(len(tri), max(12, n // 40))):
+            prog = [("leaf", 1, rng.choice(S.SHAPES), "ok", [y] * 45)]
+            if rng.random() < 0.5:
+                prog.append(("group", 2, 0.0, False, [("leaf", 3, rng.choice(S.SHAPES), "ok", [([], ("yield", tk))] * 45)], []))
+            yield ("run", tk, st, lm, [], prog)
 
     def corpus(self):
         y = lambda t=0.0: ([], ("yield", t))
